@@ -595,6 +595,9 @@ def run(repo, res, tier):
     res.rule("ROUTE-SIBLING", "the two searches agree", 1)
     arc_sign(repo, res)
     arc_lerp(repo, res)
-    merge(repo, res)
+    # merge_lanelets: decided by evaluation (c20ev.merge_rule) over link cases x joint coincidence x argument order
+    from . import c20ev
+
+    c20ev.merge_rule(repo, res, "MERGE")
     route(repo, res)
     res.note("not decided: interpolation arithmetic as numbers, floating-point behaviour at vertices, lengths of merged lanelets as numbers")
